@@ -36,7 +36,7 @@ LEXICAL = {
     'float': NUMBER + r'(?:[Ee][+-]?[0-9]+)?|[+-]?INF|NaN',
     'double': NUMBER + r'(?:[Ee][+-]?[0-9]+)?|[+-]?INF|NaN',
     'hexBinary': r'(?:[0-9a-fA-F]{2})*',
-    'base64Binary': f'(?:(?:{B64} ?){{4}})*(?:(?:{B64} ?){{3}}{B64}|(?:{B64} ?){{2}}[AEIMQUYcgkosw048] ?=|{B64} ?[AQgw] ?= ?=)?',
+    'base64Binary': f'(?:(?:(?:{B64} ?){{4}})*(?:(?:{B64} ?){{3}}{B64}|(?:{B64} ?){{2}}[AEIMQUYcgkosw048] ?=|{B64} ?[AQgw] ?= ?=))?',
     'dateTime': f'{YEAR}-{MONTH}-{DAY}T{TIME}{TZ}?',
     'dateTimeStamp': f'{YEAR}-{MONTH}-{DAY}T{TIME}{TZ}',
     'date': f'{YEAR}-{MONTH}-{DAY}{TZ}?',
